@@ -333,6 +333,35 @@ func buildWeirdCase(r *rng, feats map[string]int, tier string) *c06Case {
 		parts["word/media/image1.png"] = imageBytes("png", 3)
 		parts["customXml/item1.xml"] = []byte("<a/>")
 	}
+	// numbering and notes parts that the managers take over when the opened document is edited: well-formed ones of
+	// several shapes, and damaged ones (the edits must not panic on them)
+	wOpen := `xmlns:w="` + mainNS + `"`
+	if r.chance(30) {
+		variants := []string{
+			`<w:numbering ` + wOpen + `><w:abstractNum w:abstractNumId="3"><w:lvl w:ilvl="0"><w:numFmt w:val="decimal"/></w:lvl></w:abstractNum><w:num w:numId="7"><w:abstractNumId w:val="3"/></w:num></w:numbering>`,
+			`<w:numbering ` + wOpen + `/>`,
+			`<numbering xmlns="` + mainNS + `"><abstractNum abstractNumId="x"/><num numId="99999999999999999999"><abstractNumId/></num><num numId="-4"/></numbering>`,
+			`<w:numbering ` + wOpen + `><w:num w:numId="2"><w:abstractNumId w:val="0"/>`,
+			`<w:settings ` + wOpen + `/>`,
+			`not xml`,
+			``,
+			`<w:numbering ` + wOpen + `><w:numPicBullet w:numPicBulletId="0"/><w:abstractNum w:abstractNumId="0"/><w:num w:numId="1"><w:abstractNumId w:val="0"/></w:num><w:numIdMacAtCleanup w:val="1"/></w:numbering>`,
+		}
+		parts["word/numbering.xml"] = []byte(variants[r.intn(len(variants))])
+		feats["numbering part present (good or damaged)"]++
+	}
+	if r.chance(30) {
+		variants := []string{
+			`<w:footnotes ` + wOpen + `><w:footnote w:type="separator" w:id="-1"><w:p/></w:footnote><w:footnote w:id="4"><w:p><w:r><w:t>old</w:t></w:r></w:p></w:footnote></w:footnotes>`,
+			`<w:footnotes ` + wOpen + `/>`,
+			`<w:footnotes ` + wOpen + `><w:footnote w:id="x"/><w:footnote w:id="99999999999999999999"/><w:footnote w:type="normal" w:id="2"/>`,
+			`<w:endnotes ` + wOpen + `/>`,
+			`<<<`,
+		}
+		parts["word/footnotes.xml"] = []byte(variants[r.intn(len(variants))])
+		parts["word/endnotes.xml"] = []byte(strings.ReplaceAll(variants[r.intn(len(variants))], "footnote", "endnote"))
+		feats["notes parts present (good or damaged)"]++
+	}
 	c.data = foreignZip(parts)
 	return c
 }
@@ -538,7 +567,13 @@ func exerciseDoc(d *document.Document, r *rng, light bool) (ps []panicRec, notes
 		w, h := imgDims(2)
 		_, _ = d.AddImageFromData(imageBytes("png", 2), "i.png", document.ImageFormatPNG, w, h, nil)
 		d.AddListItem("li", &document.ListConfig{Type: document.ListTypeBullet, BulletSymbol: document.BulletTypeDot})
+		_ = d.GetFootnoteCount() + d.GetEndnoteCount()
 		_ = d.AddFootnote("n", "t")
+		_ = d.AddEndnote("n", "t")
+		_ = d.RemoveFootnote("4")
+		_ = d.RemoveEndnote("2")
+		d.RestartNumbering("7")
+		d.RestartNumbering("nope")
 		_ = d.GenerateTOC(&document.TOCConfig{Title: "c", MaxLevel: 3})
 	})
 	var saved []byte
@@ -585,6 +620,39 @@ func countTable(t *document.Table, c *bodyCounts) {
 			for ti := range cell.Tables {
 				c.cellTbl++
 				countTable(&cell.Tables[ti], c)
+			}
+		}
+	}
+}
+
+// replacedContent: a structured document tag with more than one w:sdtContent child. The reader keeps the last one;
+// the elements read inside the earlier ones are not in the opened document, so counting them there says nothing
+// about what was read (the model counts what the reader reacted to).  Such parts are compared for success/error and
+// the optional parts only.
+func replacedContent(doc []byte) bool {
+	dec := xml.NewDecoder(bytes.NewReader(doc))
+	var stack []int // number of sdtContent children seen so far, per open element (-1: not an sdt)
+	for {
+		tok, err := dec.Token()
+		if err != nil {
+			return false
+		}
+		switch t := tok.(type) {
+		case xml.StartElement:
+			if t.Name.Local == "sdtContent" && len(stack) > 0 && stack[len(stack)-1] >= 0 {
+				stack[len(stack)-1]++
+				if stack[len(stack)-1] > 1 {
+					return true
+				}
+			}
+			if t.Name.Local == "sdt" {
+				stack = append(stack, 0)
+			} else {
+				stack = append(stack, -1)
+			}
+		case xml.EndElement:
+			if len(stack) > 0 {
+				stack = stack[:len(stack)-1]
 			}
 		}
 	}
@@ -768,7 +836,7 @@ func runC06(cfg *runCfg) error {
 				if oerr == nil && d != nil && d.Body != nil {
 					// counted on a fresh copy: the exercised document has been edited
 					d0, e0 := document.OpenFromMemory(io.NopCloser(bytes.NewReader(c.data)))
-					if e0 == nil {
+					if e0 == nil && !replacedContent(c.doc) {
 						bc := countBody(d0)
 						// (section settings are not counted: a sectPr inside paragraph properties replaces the body's)
 						obs = fmt.Sprintf(`[("parseBodySubElement", "p", %d); ("parseBodySubElement", "tbl", %d); ("parseBodySubElement", "bookmarkStart", %d); ("parseBodySubElement", "bookmarkEnd", %d); ("parseBodySubElement", "sdt", %d); ("parseSDTContent", "r", %d); ("parseTable", "tr", %d); ("parseTableRow", "tc", %d); ("parseTableCell", "p", %d); ("parseTableCell", "tbl", %d)]`,
